@@ -145,6 +145,29 @@ def load_catalogue(path=CATALOGUE):
     return json.load(open(path))
 
 
+def resolve_moved(catalogue_keys, site_keys):
+    """A diagnostic that was moved into another function of the same file (a behaviour-preserving refactoring:
+    helper extracted, function renamed or split) keeps its catalogue entry: when an entry's key (file, function,
+    format) is absent from the current source and there is exactly ONE source site with the same (file, format)
+    that has no entry of its own -- and no second stale entry competes for it -- the entry is taken to describe
+    that site.  Anything ambiguous (two candidates, another file, changed wording) is left alone and stays a
+    reported mismatch.  Returns {catalogue key: source key}."""
+    ckeys = set(catalogue_keys)
+    skeys = set(site_keys)
+    free = {}
+    for k in skeys - ckeys:
+        free.setdefault((k[0], k[2]), []).append(k)
+    stale = {}
+    for k in ckeys - skeys:
+        stale.setdefault((k[0], k[2]), []).append(k)
+    moved = {}
+    for ff, olds in stale.items():
+        cand = free.get(ff, [])
+        if len(olds) == 1 and len(cand) == 1:
+            moved[olds[0]] = cand[0]
+    return moved
+
+
 def generate(repo, gendir):
     sites = extract(repo)
     keys = sorted((s["file"], s["func"], s["fmt"]) for s in sites)
@@ -161,15 +184,19 @@ def generate(repo, gendir):
     write_if_changed(os.path.join(gendir, "ErrorSites.lean"), "\n".join(body))
     os.makedirs(os.path.join(VERIF, "catalogue"), exist_ok=True)
     # sites.json describes the tree the check is pointed at; only the default tree rewrites the tracked copy
-    sj = json.dumps({"count": len(sites), "sites": sites}, indent=1) + "\n"
+    cat = load_catalogue()
+    moved = resolve_moved([tuple(e["site"]) for e in cat.get("entries", [])], keys)
+    sj = json.dumps({"count": len(sites), "sites": sites,
+                     "moved_sites": [{"catalogue": list(a), "source": list(b)} for a, b in sorted(moved.items())]},
+                    indent=1) + "\n"
     if os.path.abspath(repo) == "/repo":
         write_if_changed(os.path.join(VERIF, "catalogue", "sites.json"), sj)
 
-    cat = load_catalogue()
     rows = []
     seen = set()
     for e in cat.get("entries", []):
         k = tuple(e["site"])
+        k = moved.get(k, k)
         if k in seen:
             raise RuntimeError("catalogue lists site %s twice" % (k,))
         seen.add(k)
